@@ -779,7 +779,7 @@ pub fn run(r: &Run) {
     r.prop("corrupted-updates", r.tier.pick(150_000, 3_000_000), || arb_case(3), check);
     r.prop("clean-updates", r.tier.pick(30_000, 500_000), || arb_case(0), check);
     r.assume(SESSION_RULE);
-    r.prop("session-rib", r.tier.pick(4_000, 150_000), || arb_case(3), check_session);
+    r.slow(|| r.prop("session-rib", r.tier.pick(4_000, 150_000), || arb_case(3), check_session));
 }
 
 pub fn replay(sub: &str, case: &Value) -> Result<CheckResult, String> {
